@@ -111,6 +111,7 @@ type shimWorld struct {
 	clock  time.Time
 	ticks1 int
 	ticksH int
+	last   opResult // result of the most recent exec
 }
 
 func newShimWorld(noUp bool, initial []string, prep func(ua *uagent.Agent)) *shimWorld {
@@ -138,6 +139,22 @@ func (w *shimWorld) directAdd(name string) {
 	if err := w.ua.Ring.Add(k); err != nil {
 		panic(err)
 	}
+}
+
+// liveSlices returns the byte slices of a result exactly as the shim handed them out (no copies): what a caller holds.
+func (r opResult) liveSlices() (out [][]byte) {
+	if r.resp != nil {
+		out = append(out, r.resp)
+	}
+	for _, k := range r.keys {
+		if k != nil {
+			out = append(out, k.Blob)
+		}
+	}
+	if r.sig != nil {
+		out = append(out, r.sig.Blob, r.sig.Rest)
+	}
+	return
 }
 
 type opResult struct {
@@ -210,6 +227,7 @@ func (w *shimWorld) exec(op bfs.Op) (r opResult) {
 		}
 	})
 	vtime.Set(w.clock)
+	w.last = r
 	return r
 }
 
